@@ -1,15 +1,28 @@
 (* Property C16: calibration and parameter handles stay valid, distinct and correctly indexed.
    Theorems only; every statement is about the executable model LV.CalTab.CalTabModel (tied to
    /repo/src/vnacal_*.c by the op-script correspondence of checks/C16.py on every run) and the
-   finite-map specification LV.CalTab.TableSpec. *)
+   specification LV.CalTab.TableSpec (finite maps, invariant, [acceptable], [ends_at], [touches_cals]).
+   Lemmas: CalTab/CalTabProofs.v, CalTab/CalTabWalks.v.  Every implication is followed by an Example
+   that instantiates ALL of its hypotheses on a concrete, reachable, non-trivial state. *)
 Require Import List ZArith.
 Import ListNotations.
-Require Import LV.CalTab.CalTabModel LV.CalTab.TableSpec LV.CalTab.CalTabProofs.
+Require Import LV.CalTab.CalTabModel LV.CalTab.TableSpec LV.CalTab.CalTabProofs LV.CalTab.CalTabWalks.
 
+(* ------------------------------------------------------------------ the invariant *)
 (* The invariant (count = occupied slots; first_free <= least free index; hold count =
    [not deleted] + number of referrers; occupied iff hold count > 0; nothing refers to an empty
-   slot; the predefined parameters are in place) holds after every operation sequence, and no
-   operation - vnacal_free included - trips an assertion of the C code. *)
+   slot; the predefined parameters are in place; the [other] links are acyclic) holds after every
+   operation sequence, and no operation - vnacal_free included - trips a MODELLED assertion or
+   dereferences an empty slot.  The modelled assertions are five of vnacal_parameter.c,
+     _vnacal_release_parameter:              assert(vpmrp->vpmr_hold_count > 0)
+     _vnacal_release_parameter:              assert(vpmrp->vpmr_deleted)      (last reference gone)
+     _vnacal_free_parameter:                 assert(vprmcp->vprmc_count >= 1)
+     _vnacal_alloc_parameter:                assert(parameter < vprmcp->vprmc_allocation)  (scan past the vector)
+     _vnacal_teardown_parameter_collection:  assert(vprmcp->vprmc_count == 0)
+   plus "the slot named by a reference / by vpmr_other is not NULL" and "the walk over vpmr_other in
+   release ends" (outcome RFault in each case).  Every other assertion of the C code (index/vcp
+   consistency in _vnacal_get_parameter, the default: branches on the parameter type, vc_properties
+   == NULL in vnacal_free, cal_name == NULL, the numeric solver) is outside the model. *)
 Theorem c16_inv_reachable : forall ops,
   Inv (run_state ops) /\ forall x, In x (snd (run st_initial ops)) -> o_ret x <> RFault.
 Proof. exact (fun ops => run_inv ops st_initial inv_initial). Qed.
@@ -19,6 +32,38 @@ Theorem c16_inv_step : forall s o, Inv s -> Inv (fst (step s o)) /\ o_ret (snd (
 Proof. exact (fun s o H => conj (step_inv s o H) (step_no_fault s o H)). Qed.
 Print Assumptions c16_inv_step.
 
+Example c16_inv_step_satisfiable :
+  let s := run_state chain_script in
+  Inv s /\ st_freed s = false /\ length (pt_slots (st_pt s)) = 8 /\
+  (exists p, slot (st_pt s) 5 = Some p /\ other_of (p_kind p) = Some 4) /\
+  (exists e, chain_end 9 (st_pt s) 5 = Some e /\ p_kind e = KVector [1; 2; 3]%Z [(5, 6); (7, 8); (9, 10)]%Z) /\
+  chain_end 2 (st_pt s) 5 = None.
+Proof. exact fuel_example. Qed.
+
+(* The walks over vpmr_other terminate.  The model gives chain_end / frange / vn_check_param /
+   vn_get_param a fuel of (number of slots + 1) where the C code has unbounded loops
+   (_vnacal_get_parameter_frange, the while loop of vnacal_make_correlated_parameter, the recursion
+   of _vnacal_new_get_parameter).  Under the invariant the fuel is never exhausted: every larger
+   fuel gives the same result, and the walk from an occupied slot ends at a scalar / vector
+   parameter, whose range frange returns.  (The fuel of [release] is covered by c16_inv_step: its
+   exhaustion is reported as RFault.)  The second Example line above shows a state where fuel 2 is
+   NOT enough for slot 5, so the statement is not vacuous. *)
+Theorem c16_walks_terminate : forall s, Inv s -> st_freed s = false ->
+  let t := st_pt s in let n := S (length (pt_slots t)) in
+  (forall f, n <= f ->
+    (forall h, chain_end f t h = chain_end n t h) /\
+    (forall h, frange f t h = frange n t h) /\
+    (forall v z, vn_check_param f t v z = vn_check_param n t v z) /\
+    (forall v z, vn_get_param f t v z = vn_get_param n t v z)) /\
+  (forall h p, slot t h = Some p ->
+    exists e, chain_end n t h = Some e /\ other_of (p_kind e) = None /\ ends_at t h e /\
+              frange n t h = range_of e).
+Proof.
+  exact (fun s HI Fr => conj (fuel_sufficient_l s HI Fr) (fun h p S => walk_total_l s h p HI Fr S)).
+Qed.
+Print Assumptions c16_walks_terminate.
+
+(* ------------------------------------------------------------------ calibration indices *)
 (* add returns the index at which find / get_name / get_type / get_rows / ... then see it *)
 Theorem c16_add_returns_found_index : forall s id name s' z,
   step s (OAddCal id name) = (s', ok_int z) ->
@@ -33,7 +78,8 @@ Example c16_add_returns_found_index_satisfiable :
   exists s', step (run_state d8_script) (OAddCal 0 2) = (s', ok_int 1).
 Proof. exact add_returns_found_index_example. Qed.
 
-(* the chosen index is the one the finite-map specification names, and the map changes there only *)
+(* the chosen index is the one the finite-map specification names, and the map changes there only
+   (same hypothesis as the previous theorem: the Example above instantiates it) *)
 Theorem c16_add_refines_spec : forall s id name s' z,
   step s (OAddCal id name) = (s', ok_int z) ->
   exists i c, z = Z.of_nat i /\ spec_add_index (cal_map s) name i /\ c_name c = name /\
@@ -41,12 +87,92 @@ Theorem c16_add_refines_spec : forall s id name s' z,
 Proof. exact add_refines_spec_l. Qed.
 Print Assumptions c16_add_refines_spec.
 
-(* the code before fix D08 returned 0 whatever the slot (kept as the record of the finding) *)
-Theorem c16_add_index_before_fix_D08_refuted :
+(* FRAME: every operation other than add_calibration, delete_calibration, a property set on a
+   calibration (ci <> -1) and vnacal_free leaves the calibration table exactly as it was -
+   make/delete parameter, get_parameter_value, new_alloc, set_frequency_vector, add standard, solve
+   (successful or not), find, get_*, end, global property set, property get, new_free. *)
+Theorem c16_cals_frame_step : forall s o, touches_cals o = false ->
+  st_cals (fst (step s o)) = st_cals s /\ st_freed (fst (step s o)) = st_freed s.
+Proof. exact step_cals_frame. Qed.
+Print Assumptions c16_cals_frame_step.
+
+Theorem c16_cals_frame_history : forall ops s, Forall (fun o => touches_cals o = false) ops ->
+  st_cals (fst (run s ops)) = st_cals s /\ st_freed (fst (run s ops)) = st_freed s.
+Proof. exact run_cals_frame. Qed.
+Print Assumptions c16_cals_frame_history.
+
+(* ... hence the index returned by add is still honoured by find and get_* after any such history,
+   and every calibration query (find, get_*, end, property get on a calibration) answers as before *)
+Theorem c16_add_index_stable_along_history : forall s id name s' z ops,
+  step s (OAddCal id name) = (s', ok_int z) ->
+  Forall (fun o => touches_cals o = false) ops ->
+  let s'' := fst (run s' ops) in
+  st_cals s'' = st_cals s' /\
+  snd (step s'' (OFind name)) = ok_int z /\
+  (exists v c, get_new s id = Some v /\ vn_cal v = Some c /\
+     snd (step s'' (OGetCal z)) =
+     mkOut (RCal name (c_type c) (c_rows c) (c_cols c) (c_nf c) (c_fmin c) (c_fmax c)) ENone 0) /\
+  forall q, cal_query q = true -> snd (step s'' q) = snd (step s' q).
+Proof. exact add_index_stable_along_history_l. Qed.
+Print Assumptions c16_add_index_stable_along_history.
+
+(* twelve operations (make scalar / unknown, a second vnacal_new_t set up, solved and freed, global
+   property, delete parameter, ...) that change the parameter table but not the calibration table *)
+Example c16_add_index_stable_satisfiable :
+  let s := run_state d8_script in
+  let ops := [OMakeScalar (32, 0)%Z 0; OMakeUnknown 3 0; ONewAlloc 1 0 1 2; OSetFreq 1 5;
+              OAddStd 1 [4%Z] [(1, 0); (2, 0)]%Z; OSolve 1 true; OPropSet (-1) 7; ODeleteParam 3;
+              OGetValue 4 5; ONewFree 1; OFind 9; OEnd] in
+  exists s', step s (OAddCal 0 2) = (s', ok_int 1) /\
+             Forall (fun o => touches_cals o = false) ops /\
+             st_pt (fst (run s' ops)) <> st_pt s' /\
+             snd (step (fst (run s' ops)) (OFind 2)) = ok_int 1.
+Proof. exact add_index_stable_example. Qed.
+
+(* Stronger: histories that DO add, replace and delete OTHER calibrations and set properties.  As
+   long as no operation deletes index i, re-adds the name, or frees the vnacal_t, the name is found
+   at i and index i shows the same name / type / rows / columns / frequencies / fmin / fmax:
+   delete and add never renumber (at_index s i c = not freed, find (c_name c) = i, slot i holds c up
+   to its property root). *)
+Theorem c16_index_stable_along_history : forall ops s i c,
+  at_index s i c -> Forall (leaves_index i (c_name c)) ops ->
+  let s' := fst (run s ops) in
+  at_index s' i c /\
+  snd (step s' (OFind (c_name c))) = ok_int (Z.of_nat i) /\
+  snd (step s' (OGetCal (Z.of_nat i))) =
+    mkOut (RCal (c_name c) (c_type c) (c_rows c) (c_cols c) (c_nf c) (c_fmin c) (c_fmax c)) ENone 0.
+Proof. exact index_stable_along_history_l. Qed.
+Print Assumptions c16_index_stable_along_history.
+
+(* a successful add establishes at_index for the returned index *)
+Theorem c16_add_establishes_index : forall s id name s' z,
+  step s (OAddCal id name) = (s', ok_int z) ->
+  exists i c, z = Z.of_nat i /\ c_name c = name /\ at_index s' i c /\
+    exists v c0, get_new s id = Some v /\ vn_cal v = Some c0 /\
+      c_type c = c_type c0 /\ c_rows c = c_rows c0 /\ c_cols c = c_cols c0 /\ c_nf c = c_nf c0 /\
+      c_fmin c = c_fmin c0 /\ c_fmax c = c_fmax c0.
+Proof. exact add_gives_at_index. Qed.
+Print Assumptions c16_add_establishes_index.
+
+Example c16_index_stable_satisfiable :
+  let s := run_state two_cals_script in
+  let c := mkCal 2 0 1 1 1 1 1 None in
+  let ops := [OAddCal 0 3; OSolve 0 true; ODelCal 0; OAddCal 0 4; OSolve 0 true; OPropSet 1 9;
+              OAddCal 0 3; OMakeScalar (32, 0)%Z 0] in
+  at_index s 1 c /\ Forall (leaves_index 1 (c_name c)) ops /\
+  st_cals (fst (run s ops)) <> st_cals s /\
+  snd (step (fst (run s ops)) OEnd) = ok_int 3.
+Proof. exact index_stable_example. Qed.
+
+(* MODEL VARIANT, not the current code: [step_asis] is a hand-written variant of the model that
+   keeps three repaired defects (D08: add returned 0; D11: first_free stayed advanced after a failed
+   allocation; D42: teardown order).  It is tied to nothing (the correspondence runs [step] only);
+   the three theorems below are records of the findings: on the variant the statement above fails. *)
+Theorem c16_model_variant_before_fix_D08_add_index_refuted :
   exists s name s' z, step_asis s (OAddCal 0 name) = (s', ok_int z) /\
                       snd (step_asis s' (OFind name)) <> ok_int z.
 Proof. exact add_index_asis_refuted_l. Qed.
-Print Assumptions c16_add_index_before_fix_D08_refuted.
+Print Assumptions c16_model_variant_before_fix_D08_add_index_refuted.
 
 Theorem c16_add_existing_name_replaces : forall s id name i s' out,
   st_freed s = false -> find_name (st_cals s) name = Some i ->
@@ -59,9 +185,10 @@ Proof. exact add_existing_name_replaces_l. Qed.
 Print Assumptions c16_add_existing_name_replaces.
 
 Example c16_add_existing_name_satisfiable :
-  let s := fst (step (run_state d8_script) (OAddCal 0 2)) in
-  st_freed s = false /\ find_name (st_cals s) 1 = Some 0 /\ find_name (st_cals s) 2 = Some 1.
-Proof. exact add_existing_name_example. Qed.
+  let s := run_state d8_script in
+  st_freed s = false /\ find_name (st_cals s) 1 = Some 0 /\
+  exists s', step s (OAddCal 0 1) = (s', ok_int 0) /\ o_err (ok_int 0) = ENone /\ o_ret (ok_int 0) <> RNoSuch.
+Proof. exact add_existing_name_full_example. Qed.
 
 (* delete empties exactly one slot, without renumbering the others *)
 Theorem c16_delete_one_slot : forall s ci s',
@@ -84,6 +211,10 @@ Theorem c16_delete_refused_unchanged : forall s ci s' out,
 Proof. exact delete_refused_unchanged. Qed.
 Print Assumptions c16_delete_refused_unchanged.
 
+Example c16_delete_refused_satisfiable :
+  exists s' out, step (run_state two_cals_script) (ODelCal 5) = (s', out) /\ o_ret out <> RInt 0 /\ o_err out = ENOENT.
+Proof. exact delete_refused_example. Qed.
+
 (* get_calibration_end is one past the highest live index *)
 Theorem c16_end_is_max_plus_one : forall s s' out,
   st_freed s = false -> step s OEnd = (s', out) ->
@@ -92,7 +223,14 @@ Theorem c16_end_is_max_plus_one : forall s s' out,
 Proof. exact end_is_max_plus_one_l. Qed.
 Print Assumptions c16_end_is_max_plus_one.
 
-(* global and per-calibration properties are separate *)
+(* index 0 deleted, index 1 live: end = 2 *)
+Example c16_end_satisfiable :
+  let s := fst (step (run_state two_cals_script) (ODelCal 0)) in
+  st_freed s = false /\ step s OEnd = (s, ok_int 2) /\ cal_map s 0 = None /\ cal_map s 1 <> None.
+Proof. exact end_example. Qed.
+
+(* global and per-calibration properties are separate (a property root is abstracted to one
+   optional integer in the model: see docs/design_C16.md, "tested only") *)
 Theorem c16_properties_separate : forall s ci tok s' out,
   step s (OPropSet ci tok) = (s', out) -> o_err out = ENone -> o_ret out = RInt 0 ->
   (ci = (-1)%Z -> st_cals s' = st_cals s /\ st_gprop s' = Some tok) /\
@@ -104,6 +242,15 @@ Theorem c16_properties_separate : forall s ci tok s' out,
 Proof. exact properties_separate_l. Qed.
 Print Assumptions c16_properties_separate.
 
+Example c16_properties_satisfiable :
+  let s := run_state two_cals_script in
+  (exists s', step s (OPropSet (-1) 7) = (s', ok_int 0) /\ snd (step s' (OPropGet 0)) = mkOut (RTok None) ENOENT 0) /\
+  (exists s', step s (OPropSet 1 8) = (s', ok_int 0) /\ snd (step s' (OPropGet (-1))) = mkOut (RTok None) ENOENT 0 /\
+              snd (step s' (OPropGet 0)) = mkOut (RTok None) ENOENT 0 /\
+              snd (step s' (OPropGet 1)) = mkOut (RTok (Some 8%Z)) ENone 0).
+Proof. exact properties_example. Qed.
+
+(* ------------------------------------------------------------------ parameter handles *)
 (* parameter handles are unique while live (or merely held) *)
 Theorem c16_handles_unique_while_live : forall s o s' z,
   Inv s -> st_freed s = false -> is_make o = true ->
@@ -115,8 +262,10 @@ Proof. exact handles_unique_while_live_l. Qed.
 Print Assumptions c16_handles_unique_while_live.
 
 Example c16_handles_unique_satisfiable :
-  exists s', step (run_state held_script) (OMakeUnknown 3 0) = (s', ok_int 4).
-Proof. exact handles_unique_example. Qed.
+  let s := run_state held_script in
+  Inv s /\ st_freed s = false /\ is_make (OMakeUnknown 3 0) = true /\
+  exists s', step s (OMakeUnknown 3 0) = (s', ok_int 4) /\ (3 <= 4)%Z.
+Proof. exact handles_unique_full_example. Qed.
 
 (* the predefined match / open / short handles are permanent *)
 Theorem c16_predefined_permanent : forall ops,
@@ -128,6 +277,10 @@ Theorem c16_predefined_permanent : forall ops,
   (forall h, (0 <= h < 3)%Z -> step s (ODeleteParam h) = (s, ok_int 0)).
 Proof. exact predefined_permanent_l. Qed.
 Print Assumptions c16_predefined_permanent.
+
+Example c16_predefined_satisfiable :
+  st_freed (run_state chain_script) = false /\ run_state chain_script <> st_initial.
+Proof. exact predefined_example. Qed.
 
 (* a handle deleted while a vnacal_new_t uses it keeps working there *)
 Theorem c16_deleted_while_held_still_works : forall s h n p id v,
@@ -145,16 +298,89 @@ Print Assumptions c16_deleted_while_held_still_works.
 
 Example c16_deleted_while_held_satisfiable :
   let s := run_state held_script in
-  st_freed s = false /\ (exists p, get_param (st_pt s) 3 = Some (3, p)) /\
+  Inv s /\ st_freed s = false /\ (exists p, get_param (st_pt s) 3 = Some (3, p)) /\ (3 <= 3)%Z /\
   (exists v, get_new s 0 = Some v /\ In 3 (vn_params v)).
-Proof. exact deleted_while_held_example. Qed.
+Proof. exact deleted_while_held_full_example. Qed.
 
+(* ------------------------------------------------------------------ which handles a standard may name *)
+(* Specification (TableSpec.acceptable): a handle is acceptable for vnacal_new_t v iff v already
+   holds it, or the user can see it (non-negative, occupied, not deleted), its chain of [other] links
+   ends at a parameter covering the frequency range of v (once the frequency vector is set) and - if
+   it is a correlated parameter - the parameter it is correlated with is acceptable.
+   (fix D17; also a C11 clause)  A standard naming a handle that is NOT acceptable is refused with
+   EINVAL and one callback and leaves the whole state unchanged: no parameter of the other cells has
+   been registered, no reference taken.  The hypothesis is the specification, not the model's test:
+   the link is CalTabWalks.check_acceptable (the validation pass accepts only acceptable handles),
+   which needs the invariant (termination of the range walk). *)
+Theorem c16_rejected_standard_unchanged : forall s id v hs ms,
+  Inv s -> st_freed s = false -> get_new s id = Some v ->
+  (exists h, In h hs /\ ~ acceptable (st_pt s) v h) ->
+  step s (OAddStd id hs ms) = (s, fail_usage).
+Proof. exact rejected_standard_unchanged_l. Qed.
+Print Assumptions c16_rejected_standard_unchanged.
+
+(* the simplest way of not being acceptable: neither held by the vnacal_new_t nor visible *)
+Theorem c16_unheld_invisible_not_acceptable : forall t v h,
+  ~ ((0 <= h)%Z /\ In (Z.to_nat h) (vn_params v)) -> get_param t h = None -> ~ acceptable t v h.
+Proof. exact unheld_invisible_not_acceptable. Qed.
+Print Assumptions c16_unheld_invisible_not_acceptable.
+
+(* [3; 9]: handle 3 is held (acceptable), handle 9 is neither held nor visible *)
+Example c16_rejected_standard_satisfiable :
+  let s := run_state held_script in
+  Inv s /\ st_freed s = false /\
+  exists v, get_new s 0 = Some v /\ (exists h, In h [3%Z; 9%Z] /\ ~ acceptable (st_pt s) v h) /\
+            acceptable (st_pt s) v 3.
+Proof. exact rejected_standard_example. Qed.
+
+(* [0; 3]: handle 3 is a visible vector parameter over 1..3, the vnacal_new_t runs from 1 to 10 *)
+Example c16_rejected_standard_out_of_range_satisfiable :
+  let s := run_state range_script in
+  Inv s /\ st_freed s = false /\
+  exists v, get_new s 0 = Some v /\ (exists h, In h [0%Z; 3%Z] /\ ~ acceptable (st_pt s) v h) /\
+            get_param (st_pt s) 3 <> None.
+Proof. exact rejected_standard_out_of_range_example. Qed.
+
+(* the converse: when every handle is acceptable the standard is added - the validation pass
+   accepts (CalTabWalks.acceptable_check) and the registration pass cannot fail afterwards
+   (check_all_then_get_all): return 0, the measurement is appended, the parameter set only grows, the
+   calibration table and the other vnacal_new_t are untouched, the parameter table changes in hold
+   counts only (HR: same length, same kind and deleted flag in every slot) *)
+Theorem c16_acceptable_standard_added : forall s id v hs ms,
+  Inv s -> st_freed s = false -> get_new s id = Some v ->
+  (forall h, In h hs -> acceptable (st_pt s) v h) ->
+  exists s' v', step s (OAddStd id hs ms) = (s', ok_int 0) /\
+    get_new s' id = Some v' /\ vn_meas v' = vn_meas v ++ [mkMeas (map Z.to_nat hs) ms] /\
+    incl (vn_params v) (vn_params v') /\
+    st_cals s' = st_cals s /\ (forall j, j <> id -> get_new s' j = get_new s j) /\
+    HR (st_pt s) (st_pt s').
+Proof. exact accepted_standard_l. Qed.
+Print Assumptions c16_acceptable_standard_added.
+
+(* handle 5 = correlated -> unknown 4 -> vector 3 over 1..3; the vnacal_new_t runs over 1..3 and
+   holds none of them yet *)
+Example c16_acceptable_standard_satisfiable :
+  let s := run_state chain_script in
+  Inv s /\ st_freed s = false /\
+  exists v, get_new s 0 = Some v /\ (forall h, In h [5%Z] -> acceptable (st_pt s) v h) /\
+            ~ In 5 (vn_params v) /\
+            exists s', step s (OAddStd 0 [5%Z] [(1, 0); (2, 0); (3, 0)]%Z) = (s', ok_int 0).
+Proof. exact accepted_standard_example. Qed.
+
+(* ------------------------------------------------------------------ values *)
 (* values are returned as supplied *)
 Theorem c16_values_as_supplied_scalar : forall s g fl s' z,
   Inv s -> st_freed s = false -> step s (OMakeScalar g fl) = (s', ok_int z) ->
   forall f, get_value (st_pt s') z f = mkOut (RValue g) ENone 0.
 Proof. exact values_as_supplied_scalar_l. Qed.
 Print Assumptions c16_values_as_supplied_scalar.
+
+Example c16_values_as_supplied_scalar_satisfiable :
+  let s := run_state held_script in
+  Inv s /\ st_freed s = false /\
+  exists s', step s (OMakeScalar (5, 7)%Z 0) = (s', ok_int 4) /\
+             get_value (st_pt s') 4 123 = mkOut (RValue (5, 7)%Z) ENone 0.
+Proof. exact scalar_value_example. Qed.
 
 (* ... and stay as supplied: over any history that neither deletes the handle nor frees the vnacal_t,
    vnacal_get_parameter_value of a live scalar or vector parameter does not change *)
@@ -167,56 +393,87 @@ Theorem c16_values_stable_while_live : forall ops s h p,
 Proof. exact value_stable_run. Qed.
 Print Assumptions c16_values_stable_while_live.
 
-(* partial: the interpolation of _vnacal_rfi is not modelled (a knot returns its value - the
-   first test of that function); solved unknown parameters are an oracle of the model *)
-Theorem c16_values_as_supplied_vector_partial : forall s fs gs fl s' z f i,
+Example c16_values_stable_satisfiable :
+  let s := run_state chain_script in
+  let ops := [OAddStd 0 [5%Z] [(1, 0); (2, 0); (3, 0)]%Z; OSolve 0 true; OAddCal 0 1; ODeleteParam 5;
+              OMakeScalar (9, 9)%Z 0; ONewFree 0; ODeleteParam 4] in
+  Inv s /\ st_freed s = false /\
+  (exists p, slot (st_pt s) 3 = Some p /\ p_deleted p = false /\ other_of (p_kind p) = None) /\
+  Forall (not_free_or_delete 3) ops /\
+  st_pt (fst (run s ops)) <> st_pt s /\
+  get_value (st_pt (fst (run s ops))) 3 2 = mkOut (RValue (7, 8)%Z) ENone 0.
+Proof. exact values_stable_example. Qed.
+
+(* A vector parameter asked at the i-th supplied frequency returns the i-th supplied value.
+   No default value is involved: the C function takes ONE count for both arrays and copies that many
+   gamma entries, so a caller array shorter than the frequency vector is a caller error the code
+   cannot detect; the model answers RUndef there (c16_make_vector_short_gamma_out_of_model) and
+   makes no prediction, and a successful make_vector implies that the i-th gamma entry exists.  A
+   supplied frequency always passes the range test of vnacal_get_parameter_value (proved from the
+   ascending / non-negative checks), so there is no range premise.
+   "at_knots": the rational-function interpolation between supplied frequencies is not modelled
+   (the model answers RInterp there); that a knot returns its own value is the first test of
+   _vnacal_rfi, a fact about the C code that only the correspondence checks. *)
+Theorem c16_values_as_supplied_vector_at_knots : forall s fs gs fl s' z f i,
   Inv s -> st_freed s = false -> step s (OMakeVector fs gs fl) = (s', ok_int z) ->
   index_of f fs = Some i ->
-  (99 * hd 0 fs <= 100 * f)%Z -> (100 * f <= 101 * last fs 0)%Z ->
-  get_value (st_pt s') z f = mkOut (RValue (nth i gs (0, 0)%Z)) ENone 0.
-Proof. exact values_as_supplied_vector_partial_l. Qed.
-Print Assumptions c16_values_as_supplied_vector_partial.
+  exists g, nth_error gs i = Some g /\ get_value (st_pt s') z f = mkOut (RValue g) ENone 0.
+Proof. exact values_as_supplied_vector_l. Qed.
+Print Assumptions c16_values_as_supplied_vector_at_knots.
 
 Example c16_values_as_supplied_satisfiable :
   exists s', step st_initial (OMakeVector [1; 2; 3]%Z [(5, 6); (7, 8); (9, 10)]%Z 0) = (s', ok_int 3) /\
              get_value (st_pt s') 3 2 = mkOut (RValue (7, 8)%Z) ENone 0.
 Proof. exact values_as_supplied_example. Qed.
 
-(* vnacal_free (fix D42) never aborts from a state that satisfies the invariant *)
+Theorem c16_make_vector_short_gamma_out_of_model : forall s f0 fs gs fl,
+  st_freed s = false -> (0 <= f0)%Z -> ascending (f0 :: fs) = true -> length gs < length (f0 :: fs) ->
+  step s (OMakeVector (f0 :: fs) gs fl) = (s, mkOut RUndef ENone 0).
+Proof. exact make_vector_short_gamma_undefined. Qed.
+Print Assumptions c16_make_vector_short_gamma_out_of_model.
+
+Example c16_make_vector_short_gamma_satisfiable :
+  step st_initial (OMakeVector [1; 2; 3]%Z [(5, 6)]%Z 0) = (st_initial, mkOut RUndef ENone 0).
+Proof. exact short_gamma_example. Qed.
+
+(* ------------------------------------------------------------------ vnacal_free, allocation failure *)
+(* vnacal_free (fix D42) never trips a modelled assertion from a state that satisfies the invariant -
+   the final assert(vprmc_count == 0) of _vnacal_teardown_parameter_collection included: every
+   parameter has been released (this needs the acyclicity of the [other] links: a cycle would keep
+   its members alive) - and nothing is left in either table *)
 Theorem c16_free_never_aborts : forall s, st_freed s = false -> Inv s ->
-  exists s', step s OFree = (s', mkOut (RInt 0) ENone 0) /\ st_freed s' = true.
+  exists s', step s OFree = (s', mkOut (RInt 0) ENone 0) /\ st_freed s' = true /\
+             pt_count (st_pt s') = 0 /\ (forall h, slot (st_pt s') h = None) /\ st_cals s' = [].
 Proof. exact (fun s Fr H => free_ok s Fr (proj1 (Inv_Good s Fr) H)). Qed.
 Print Assumptions c16_free_never_aborts.
 
-Theorem c16_free_before_fix_D42_refuted :
+Example c16_free_satisfiable :
+  let s := run_state chain_script in
+  Inv s /\ st_freed s = false /\ exists s', step s OFree = (s', mkOut (RInt 0) ENone 0).
+Proof. exact free_example. Qed.
+
+(* model variant (see above): the teardown order of the code before fix D42 *)
+Theorem c16_model_variant_before_fix_D42_free_aborts :
   exists s, s = fst (run st_initial d42_script) /\ o_ret (snd (step_asis s OFree)) = RFault.
 Proof. exact free_asis_aborts_l. Qed.
-Print Assumptions c16_free_before_fix_D42_refuted.
+Print Assumptions c16_model_variant_before_fix_D42_free_aborts.
 
-(* a failed parameter allocation (fix D11) keeps first_free at or below the least free slot;
-   before the fix it did not *)
+(* a failed parameter allocation (fix D11) keeps first_free at or below the least free slot *)
 Theorem c16_alloc_failure_keeps_table : forall t k fl t',
   inv_table t -> alloc_param t k fl = AFail t' ->
   (forall j, slot t' j = slot t j) /\ inv_table t' /\ other_owners (pt_slots t') = other_owners (pt_slots t).
 Proof. exact alloc_fail_spec. Qed.
 Print Assumptions c16_alloc_failure_keeps_table.
 
-Theorem c16_alloc_failure_before_fix_D11_refuted :
-  exists t t', inv_table t /\ alloc_param_gen false t (KScalar (1, 1)%Z) 1 = AFail t' /\ ~ inv_table t'.
-Proof. exact alloc_fail_asis_breaks_first_free_l. Qed.
-Print Assumptions c16_alloc_failure_before_fix_D11_refuted.
+Example c16_alloc_failure_satisfiable :
+  let t := st_pt (run_state [OMakeScalar (32, 0)%Z 0]) in
+  inv_table t /\ exists t', alloc_param t (KScalar (1, 1)%Z) 1 = AFail t' /\ pt_first_free t' = 4.
+Proof. exact alloc_failure_example. Qed.
 
-(* a standard refused because one of its parameter handles is invalid leaves everything unchanged
-   (fix D17; also a C11 clause) *)
-Theorem c16_rejected_standard_unchanged : forall s id v hs ms,
-  st_freed s = false -> get_new s id = Some v ->
-  forallb (vn_check_param (S (length (pt_slots (st_pt s)))) (st_pt s) v) hs = false ->
-  step s (OAddStd id hs ms) = (s, fail_usage).
-Proof. exact rejected_standard_unchanged_l. Qed.
-Print Assumptions c16_rejected_standard_unchanged.
-
-Example c16_rejected_standard_satisfiable :
-  let s := run_state held_script in
-  exists v, get_new s 0 = Some v /\
-  forallb (vn_check_param (S (length (pt_slots (st_pt s)))) (st_pt s) v) [3%Z; 9%Z] = false.
-Proof. exact rejected_standard_example. Qed.
+(* model variant (see above): before fix D11 first_free stayed advanced.  The witness is a REACHABLE
+   table: the one after a single make_scalar (8 slots, 4 used, first_free 3). *)
+Theorem c16_model_variant_before_fix_D11_alloc_failure_breaks_first_free :
+  let t := st_pt (run_state [OMakeScalar (32, 0)%Z 0]) in
+  inv_table t /\ exists t', alloc_param_gen false t (KScalar (1, 1)%Z) 1 = AFail t' /\ ~ inv_table t'.
+Proof. exact alloc_fail_variant_breaks_first_free_l. Qed.
+Print Assumptions c16_model_variant_before_fix_D11_alloc_failure_breaks_first_free.
